@@ -552,3 +552,16 @@ PLANS["C16"] = dict(
         "(a user class sharing state through class attributes) is the user's code",
     ],
 )
+
+
+# C19 also covers the layouts of what travels inside a packet - the message triple (kind, sequence number, payload) and the request
+# pair (handler number, boxed arguments): the layout clauses of _send / _async_request / _dispatch carry C19 among their properties
+PLANS["C19"]["contracts"] = ALL_CONTRACTS
+PLANS["C19"]["specs"] = ALL_SPECS
+PLANS["C19"]["targets"] = PLANS["C19"]["targets"] + [PROTO + n for n in ("_send", "_async_request", "_dispatch")]
+PLANS["C19"]["lemmas"] = PLANS["C19"]["lemmas"] + ["frames_app", "all_fit_app"]
+PLANS["C19"]["assumptions"] = PLANS["C19"]["assumptions"] + [
+    "message and request layouts: Connection._send encodes exactly the triple (message kind, sequence number, payload); _async_request "
+    "sends (handler number, boxed arguments) as the payload of a MSG_REQUEST; _dispatch reads the same triple back - verified under the "
+    "assumptions listed for C08 (handler table and nested requests as models)",
+]
